@@ -3962,3 +3962,142 @@ Theorem close_stop_reuse_behaviour :
   (count_cb 0 (tr s2) = 0 /\ h_signum (get s2 0) = 10 /\ h_active (get s2 0) = true /\ pending s2 0 = 0 /\
    In (ECloseCb 0) (tr s2)).
 Proof. vm_compute. intuition. Qed.
+
+(* ------------------------------------------------------------------ *)
+(* 14. the critical sections: block, then lock                          *)
+(* ------------------------------------------------------------------ *)
+Definition tk (b : bool) : nat := if b then 1 else 0.
+
+Fixpoint holders (l : list cthread) : nat :=
+  match l with
+  | [] => 0
+  | x :: r => tk (c_holds x) + holders r
+  end.
+
+(* per thread, for the code as it is: where the thread is tells whether it blocks signals and
+   whether it holds the token; the handler only ever interrupts a thread between two calls *)
+Definition cwf (x : cthread) : Prop :=
+  match c_pc x with
+  | CIdle => c_blocked x = false /\ c_holds x = false
+  | CEntry1 => c_blocked x = true /\ c_holds x = false
+  | CIn => c_blocked x = true /\ c_holds x = true
+  | CBodyDone => c_blocked x = true /\ c_holds x = true
+  | CUnlocked => c_blocked x = true /\ c_holds x = false
+  | CH1 => c_blocked x = true /\ c_holds x = false /\ c_saved x = CIdle
+  | CH2 => c_blocked x = true /\ c_holds x = true /\ c_saved x = CIdle
+  | CH3 => c_blocked x = true /\ c_holds x = false /\ c_saved x = CIdle
+  end.
+
+Definition CInv (st : csys) : Prop :=
+  holders (c_thr st) + tk (c_token st) = 1 /\ Forall cwf (c_thr st).
+
+Lemma holders_upd t f l : t < length l ->
+  holders (upd t f l) + tk (c_holds (nth t l ct_dflt)) = holders l + tk (c_holds (f (nth t l ct_dflt))).
+Proof.
+  revert t; induction l as [|x l IH]; intros [|t] H; simpl in *; try lia.
+  specialize (IH t ltac:(lia)). lia.
+Qed.
+
+Lemma holders_ge t l : t < length l -> tk (c_holds (nth t l ct_dflt)) <= holders l.
+Proof.
+  revert t; induction l as [|x l IH]; intros [|t] H; simpl in *; try lia.
+  specialize (IH t ltac:(lia)). lia.
+Qed.
+
+Lemma Forall_upd {A} (P : A -> Prop) t f l d : Forall P l -> (t < length l -> P (f (nth t l d))) -> Forall P (upd t f l).
+Proof.
+  revert t; induction l as [|x l IH]; intros [|t] H Hf; simpl; auto.
+  - inversion H; subst. constructor; auto. apply Hf. simpl. lia.
+  - inversion H; subst. constructor; auto. apply IH; auto. intros. apply Hf. simpl. lia.
+Qed.
+
+Lemma Forall_nth_d {A} (P : A -> Prop) t l d : Forall P l -> t < length l -> P (nth t l d).
+Proof. intros H Hl. rewrite Forall_forall in H. apply H. apply nth_In. auto. Qed.
+
+Lemma cstep_thread_ok tok x :
+  cwf x -> (c_holds x = true -> tok = false) ->
+  let r := cstep_thread true tok x in
+  cwf (snd r) /\ tk (fst r) + tk (c_holds (snd r)) = tk tok + tk (c_holds x).
+Proof.
+  intros W Ht. cbv zeta. unfold cstep_thread, cwf in *.
+  destruct (c_pc x) eqn:Ep; simpl.
+  - destruct (c_calls x); simpl; rewrite ?Ep; auto. destruct W as [a b]. rewrite b. auto.
+  - destruct W as [a b]. destruct tok; simpl; rewrite ?Ep; auto. rewrite b. simpl. auto.
+  - destruct W as [a b]. auto.
+  - destruct W as [a b]. rewrite (Ht b), b. simpl. auto.
+  - destruct W as [a b]. rewrite b. auto.
+  - destruct W as (a&b&c). destruct tok; simpl; rewrite ?Ep; auto. rewrite b. simpl. auto.
+  - destruct W as (a&b&c). rewrite (Ht b), b. simpl. auto.
+  - destruct W as (a&b&c). rewrite c, b. simpl. auto.
+Qed.
+
+Lemma cinv_step st c : CInv st -> CInv (cstep true st c).
+Proof.
+  intros [Hs Hw]. destruct c as [t|t]; simpl.
+  - destruct (Nat.ltb_spec t (length (c_thr st))) as [Hl|Hl]; [|split; auto].
+    pose proof (Forall_nth_d cwf t _ ct_dflt Hw Hl) as Wx.
+    pose proof (holders_ge t _ Hl) as Hg.
+    assert (Ht : c_holds (nth t (c_thr st) ct_dflt) = true -> c_token st = false).
+    { intros E. rewrite E in Hg. simpl in Hg. destruct (c_token st); simpl in Hs; auto. lia. }
+    destruct (cstep_thread_ok (c_token st) _ Wx Ht) as [W' E'].
+    destruct (cstep_thread true (c_token st) (nth t (c_thr st) ct_dflt)) as [tok x'] eqn:Es. simpl in *.
+    split.
+    + pose proof (holders_upd t (fun _ => x') (c_thr st) Hl). simpl in *. lia.
+    + apply Forall_upd with (d := ct_dflt); auto.
+  - split.
+    + simpl. destruct (Nat.ltb_spec t (length (c_thr st))) as [Hl|Hl].
+      * pose proof (holders_upd t csignal_thread (c_thr st) Hl) as U.
+        assert (c_holds (csignal_thread (nth t (c_thr st) ct_dflt)) = c_holds (nth t (c_thr st) ct_dflt)).
+        { unfold csignal_thread. destruct (c_blocked _); reflexivity. }
+        rewrite H in U. lia.
+      * rewrite upd_oob by auto. auto.
+    + apply Forall_upd with (d := ct_dflt); auto. intros Hl.
+      pose proof (Forall_nth_d cwf t _ ct_dflt Hw Hl) as Wx.
+      unfold csignal_thread. destruct (c_blocked (nth t (c_thr st) ct_dflt)) eqn:Eb; auto.
+      (* not blocked: the thread is between two calls and holds nothing *)
+      unfold cwf in *. destruct (c_pc (nth t (c_thr st) ct_dflt)) eqn:Ep; simpl;
+        try (destruct Wx as [a _]; congruence); try (destruct Wx as (a&_); congruence).
+      destruct Wx as [a b]. auto.
+Qed.
+
+Lemma cinv_init n calls : CInv (cinit n calls).
+Proof.
+  unfold cinit, CInv. simpl. split.
+  - induction n; simpl; auto.
+  - apply Forall_forall. intros x Hx. apply repeat_spec in Hx. subst. simpl. auto.
+Qed.
+
+Theorem cinv_run n calls cs : CInv (crun true (cinit n calls) cs).
+Proof.
+  generalize (cinv_init n calls). generalize (cinit n calls).
+  induction cs as [|c cs IH]; intros st H; simpl; auto. apply IH. apply cinv_step; auto.
+Qed.
+
+(* block, then lock: for any number of threads, API calls, signals and any schedule -
+   (1) the lock is held by at most one thread, (2) only with every signal blocked in that thread,
+   (3) so a handler never starts in a thread that holds the lock: when it asks for the lock
+       (CH1) its thread holds nothing and was interrupted between two calls *)
+Theorem handler_never_in_lock_holder n calls cs :
+  let st := crun true (cinit n calls) cs in
+  holders (c_thr st) <= 1 /\
+  (forall x, In x (c_thr st) -> c_holds x = true -> c_blocked x = true) /\
+  (forall x, In x (c_thr st) -> c_pc x = CH1 -> c_holds x = false /\ c_saved x = CIdle).
+Proof.
+  cbv zeta. destruct (cinv_run n calls cs) as [Hs Hw]. rewrite Forall_forall in Hw. split; [lia|]. split.
+  - intros x Hx Hh. specialize (Hw x Hx). unfold cwf in Hw.
+    destruct (c_pc x); destruct Hw as [a b]; try destruct b as [b c]; congruence.
+  - intros x Hx Hp. specialize (Hw x Hx). unfold cwf in Hw. rewrite Hp in Hw. tauto.
+Qed.
+
+(* lock, then block: one thread, one call, one signal in the window: the handler waits for the
+   token that its own thread holds - no step changes the state any more *)
+Theorem lock_before_block_deadlocks :
+  let st := crun false (cinit 1 1) [CRun 0; CSignal 0] in
+  c_token st = false /\
+  (exists x, c_thr st = [x] /\ c_pc x = CH1 /\ c_holds x = true /\ c_calls x = 1) /\
+  (forall c, cstep false st c = st).
+Proof.
+  cbv zeta. vm_compute. split; [reflexivity|]. split.
+  - eexists. repeat split.
+  - intros [[|t]|[|t]]; try reflexivity; destruct t; reflexivity.
+Qed.
